@@ -29,6 +29,8 @@ func runMonitors(cfg CheckConfig, res *hx.Result, traces []*Trace) error {
 		return monitorC09(cfg, res, traces)
 	case "C11":
 		return monitorC11(cfg, res, traces)
+	case "C10":
+		return monitorC10(cfg, res, traces)
 	}
 	return nil
 }
